@@ -98,11 +98,20 @@ func c15Render(pieces []string, deco map[int][]c15Item) string {
 			first = false
 		}
 		if i < len(pieces)-1 && b.Len() > 0 {
-			b.WriteString("\n")
+			if c15Join[i] && len(items) == 0 {
+				b.WriteString(" ") // line-sharing layout: this boundary is not a line break
+			} else {
+				b.WriteString("\n")
+			}
 		}
 	}
 	return b.String()
 }
+
+// c15Join: boundaries (slots) that are laid out as a blank instead of a line break when they carry no
+// decoration: the first statement of a block on the line of its "{", the "}" on the line of the last
+// statement, several statements on one line.
+var c15Join map[int]bool
 
 type c15Comment struct {
 	Text string
@@ -468,6 +477,42 @@ func c15Run(c *core.Ctx) {
 				}
 			}
 		}
+		// line-sharing layouts: each single inner boundary, and all of them, without a line break
+		if nslots > 2 {
+			var joinSets []map[int]bool
+			all := map[int]bool{}
+			for j := 1; j < nslots-1; j++ {
+				joinSets = append(joinSets, map[int]bool{j: true})
+				all[j] = true
+			}
+			if nslots > 3 {
+				joinSets = append(joinSets, all)
+			}
+			for ji, J := range joinSets {
+				c15Join = J
+				plainJ := c15Render(pieces, nil)
+				for s := 0; s < nslots; s++ {
+					for _, d := range pairDecos {
+						if s == 0 && d[0].Kind == 'T' {
+							continue
+						}
+						src := c15Render(pieces, map[int][]c15Item{s: d})
+						c.Inc("decorated_programs")
+						c.Inc("line_sharing_layouts")
+						k, dd := c15Check(src, plainJ, sibOrd)
+						if k == "" {
+							k, dd = c15Neutral(src)
+						}
+						jn := "one boundary on one line"
+						if ji == len(joinSets)-1 && nslots > 3 {
+							jn = "all other boundaries on one line"
+						}
+						report(k, dd, src, plainJ, len(toks)+len(d)+1, slotKind(s)+":"+shape(d)+" ("+jn+")")
+					}
+				}
+				c15Join = nil
+			}
+		}
 		if c.Count0()%211 == 0 {
 			c.Sample(c15Render(pieces, map[int][]c15Item{nslots - 1: decos[0], nslots / 2: decos[1]}))
 		}
@@ -536,7 +581,7 @@ func c15Replay(pl json.RawMessage) (string, []core.Violation) {
 func init() {
 	core.Register(&core.PropSpec{
 		ID: "C15", Level: "exploration",
-		Rule:     "skeleton programs (statement families; nesting chains of depth <= 2, 3 thorough, over blocks / if-else-loop blocks / function declarations / function expressions in every expression position) laid out one statement per line; at EVERY statement boundary (before each statement of a list, before each closing brace of a list, before the end of input) every decoration of the alphabet (own-line or trailing comment with each of 8 texts incl. code-like text, quotes, backtick, //, trailing spaces; blank-line runs 1 and 3; 13 mixed sequences of comments and blank lines), singly at every boundary and pairwise at every two boundaries for small skeletons. Oracle (independent tokenizer R-tok on source and output): the comment list of each pretty output (3 option sets) has the same texts (modulo trailing white space) in the same order, each in front of the same significant token (';' ignored); a blank line separates two sibling statements in the output iff it does in the source; compact output is byte-identical to the compact output of the comment-free program and contains no comment; replacing every comment text by a neutral one changes the pretty output only inside the comments. non-trivial = decorated programs containing at least one comment Added: comment texts with every code point of U+2000..U+203F except U+2028/U+2029 and one code point per UTF-8 length, own-line and trailing, at every boundary of a small skeleton; empty and blank-only comment texts.",
+		Rule:     "skeleton programs (statement families; nesting chains of depth <= 2, 3 thorough, over blocks / if-else-loop blocks / function declarations / function expressions in every expression position) laid out one statement per line; at EVERY statement boundary (before each statement of a list, before each closing brace of a list, before the end of input) every decoration of the alphabet (own-line or trailing comment with each of 8 texts incl. code-like text, quotes, backtick, //, trailing spaces; blank-line runs 1 and 3; 13 mixed sequences of comments and blank lines), singly at every boundary and pairwise at every two boundaries for small skeletons. Oracle (independent tokenizer R-tok on source and output): the comment list of each pretty output (3 option sets) has the same texts (modulo trailing white space) in the same order, each in front of the same significant token (';' ignored); a blank line separates two sibling statements in the output iff it does in the source; compact output is byte-identical to the compact output of the comment-free program and contains no comment; replacing every comment text by a neutral one changes the pretty output only inside the comments. non-trivial = decorated programs containing at least one comment Added: comment texts with every code point of U+2000..U+203F except U+2028/U+2029 and one code point per UTF-8 length, own-line and trailing, at every boundary of a small skeleton; empty and blank-only comment texts. Line-sharing layouts (round 11): every skeleton again with each single inner boundary, and with all boundaries other than the decorated one, laid out as a blank instead of a line break (first statement on the line of its opening brace, closing brace on the line of the last statement, several statements on one line), 5 decorations at every boundary.",
 		Assume:   []string{"comments are compared modulo trailing white space", "blank-line preservation is required between sibling statements only (not after an opening or before a closing brace)", "multi-line literals are exercised by C06/C07, not here"},
 		QuickSec: 240, ThorSec: 1800, Run: c15Run, Replay: c15Replay,
 		Evals: "decorated_programs", Nontriv: "programs_with_comments",
